@@ -67,7 +67,11 @@ def strategy(tier):
     pcall = st.tuples(st.just("pcall"), interval,
                       st.sampled_from([0, 0, 1, 7, 100, 10**6]),   # d utime
                       st.sampled_from([0, 1, 3, 100, 10**5]),      # d stime
-                      st.sampled_from([0.0, 0.001, 0.25, 1.0, 3.0]))  # wall dt
+                      st.sampled_from([0.0, 0.001, 0.25, 1.0, 3.0]),  # wall dt
+                      # the process reaps children / waits for block I/O in
+                      # between: cutime, cstime, delayacct_blkio_ticks grow
+                      st.sampled_from([(0, 0, 0), (0, 0, 0), (500, 0, 0), (0, 40, 0),
+                                       (0, 0, 300), (10**6, 10**5, 77)]))
     return st.fixed_dictionaries(dict(
         nfields=st.sampled_from([7, 8, 9, 10, 10, 10]),
         cpu_ids=st.sampled_from([[0], [0, 1], [0, 1, 2, 3], [0, 2], [1, 3, 5],
@@ -202,12 +206,20 @@ def run_case(case):
                     set_stat()
                     continue
                 if op[0] == "pcall":
-                    _, interval, du, ds, dt = op
+                    _, interval, du, ds, dt = op[:5]
+                    dother = tuple(op[5]) if len(op) > 5 else (0, 0, 0)
                     blocking = interval is not None and interval > 0
 
-                    def during(now, du=du, ds=ds):
+                    def burn(du=du, ds=ds, dother=dother):
                         proc.utime += du
                         proc.stime += ds
+                        proc.cutime += dother[0]
+                        proc.cstime += dother[1]
+                        if proc.blkio is not None:
+                            proc.blkio += dother[2]
+
+                    def during(now, burn=burn):
+                        burn()
                         k.on_time = None
 
                     if blocking:
@@ -216,8 +228,7 @@ def run_case(case):
                     else:
                         # time passes and the process burns CPU between calls
                         k.now += dt
-                        proc.utime += du
-                        proc.stime += ds
+                        burn()
                     try:
                         got = pobj.cpu_percent(interval)
                         exc = None
@@ -250,6 +261,8 @@ def run_case(case):
                                             f"cpu_percent({interval!r}) = {got!r}; "
                                             f"100*{float(dcpu)}/{float(dwall)} = {float(exp)!r}")
                         labels.add("proc-blocking" if blocking else "proc-nonblocking")
+                        if any(dother):
+                            labels.add("proc-children-or-iowait-grew")
                         if dwall == 0:
                             labels.add("proc-dt0")
                     p_last = nowt
